@@ -6,7 +6,7 @@ PROPERTY = dict(
                'one query per graph shape, with the rule keys - which fix the order in which predecessors are explored, hence WHICH cycle is reported - symbolic. '
                '(Y1) if a cycle is reachable from the requested key the reported list starts at the requested key, every consecutive pair is a real wait-for edge, the last key repeats an earlier one and no key is listed twice before it; if none is reachable the list is empty (no false report). '
                '(Y3) the same with some rules still being SCANNED instead of running (cycles through dependencies recorded by earlier builds): a task waiting for a scanning rule is a paused input request in that rule\'s scan record, a scanning rule waiting for another rule is a deferred scan request in the other\'s record or task. '
-               '(Y2) when the engine is stuck and the cycle cannot be broken, the client is told exactly once, with that list, the build does not go on, and no task is changed.',
+               '(Y2) when the engine is stuck and the cycle cannot be broken, the client is told exactly once, with that list, the build does not go on, and no task is changed; (Y4) the same when any rule may carry a result of an earlier build (breakCycle then considers supplying prior values; the client declines).',
     level_note='Trusted: clang-14 -O1 IR of BuildEngine.cpp, ir2c (validated per query), CBMC 6.11 + MiniSat/CaDiCaL; the real libstdc++ hash containers run unmodified, only std::hash of a pointer is replaced by an injective small number (any function of the pointer is a valid hash). '
                'NOT decided: that the engine enters resolveCycle exactly when it is stuck (C05/C06 drive executeTasks with resolveCycle stubbed), '
                'cycle breaking by forcing a build or supplying a prior value, graphs over more than 3 rules.',
@@ -45,4 +45,7 @@ OBLIGATIONS = [
                       [{'VF_N': 3, 'VF_SHAPE': sh, 'VF_SCAN': m} for (sh, m) in ((10, 1), (10, 2), (10, 3), (162, 6), (102, 4), (98, 7), (98, 2), (38, 2), (260, 5), (2, 1), (2, 3), (140, 1), (273, 2))], params_thorough=scan_shapes(2) + scan_shapes(3)[::8]),   # every 8th of the 1216 three-rule shapes: a shape in which a rule waits on two others costs 1-8 min (symbolic exploration order)
     dict(CYC, name='Y2.resolveCycle', noinline=['BuildEngineImpl9findCycle', 'BuildEngineImpl12resolveCycle', 'BuildEngineImpl10breakCycle'], expect_functions=['BuildEngineImpl12resolveCycle'],
          params_quick=stuck(shapes(2) + shapes(3, sample=[84, 98, 140, 273, 292, 341])), params_thorough=stuck(shapes(2)) + stuck(shapes(3))[::6]),
+    # Y4: as Y2, but every rule may have a result of an earlier build: breakCycle then considers supplying prior values (the client declines)
+    dict(CYC, name='Y4.resolveCycle-prior', noinline=['BuildEngineImpl9findCycle', 'BuildEngineImpl12resolveCycle', 'BuildEngineImpl10breakCycle'], expect_functions=['BuildEngineImpl10breakCycle'],
+         params_quick=[dict(p, VF_PRIOR=1) for p in stuck(shapes(2, sample=[6, 10, 14]) + shapes(3, sample=[98, 162, 273]))], params_thorough=[dict(p, VF_PRIOR=1) for p in stuck(shapes(2)) + stuck(shapes(3))[::12]]),
 ]
